@@ -10,9 +10,9 @@ From Pi2 Require Import ML.Syntax ML.Subst ML.Machine MM16.Verify MM16.Convert M
 Import ListNotations.
 Open Scope N_scope.
 
-Record tst := mkT { mst : state; heap : list term; out : list instr }.
+Record tst := mkT { mst : state; heap : list term; out : list oinstr }.
 
-Definition do (is:list instr) (t:tst) : option tst :=
+Definition do (is:list oinstr) (t:tst) : option tst :=
   match iruns Proof is (mst t) with
   | Some s => Some (mkT s (heap t) (out t ++ is))
   | None => None
@@ -23,7 +23,7 @@ Definition top (t:tst) : option term := hd_error (stack (mst t)).
 (** [interpreter.load(name, x)]: [Load memory.index(x)] *)
 Definition load_of (x:term) (t:tst) : option tst :=
   match find_idx x (memory (mst t)) with
-  | Some i => do [ILoad (N.of_nat i)] t
+  | Some i => do [OLoad (N.of_nat i)] t
   | None => None
   end.
 
@@ -54,19 +54,6 @@ Definition lemmas (d:db) : list assertion :=
                       | IProv a _ _ => if N.eqb (fst (a_stmt a)) tc_proved then [a] else []
                       | _ => [] end) d.
 
-Inductive entry := EFloat (tc v:N) | EAx (a:assertion) | ELemma (a:assertion).
-
-Fixpoint find_label (d:db) (l:label) : option entry :=
-  match d with
-  | [] => None
-  | it::r =>
-      match it with
-      | IFloat l' tc v => if label_eqb l l' then Some (EFloat tc v) else find_label r l
-      | IAx a => if label_eqb l (a_label a) then Some (EAx a) else find_label r l
-      | IProv a _ _ => if label_eqb l (a_label a) then Some (ELemma a) else find_label r l
-      end
-  end.
-
 (** [get_metavars_in_order]: the assertion's metavariables in the order of their [$f] statements *)
 Definition metavars_in_order (d:db) (a:assertion) : list N :=
   filter (fun v => memN v (mand_vars a)) (pattern_floats d).
@@ -81,7 +68,7 @@ Definition inst_ids (a:assertion) : list N := map (mvid d) (metavars_in_order d 
 Definition do_inst (a:assertion) (t:tst) : option tst :=
   match inst_ids a with
   | [] => Some t
-  | ids => do [IInst (rev ids)] t
+  | ids => do [OInst (rev ids)] t
   end.
 
 (** [for _ in antecedents: save; pop] — returns the saved terms in saving order *)
@@ -89,7 +76,7 @@ Fixpoint save_pops (k:nat) (t:tst) (saved:list term) : option (list term * tst) 
   match k with
   | O => Some (saved, t)
   | S k' => match top t with
-            | Some x => match do [ISave; IPop] t with
+            | Some x => match do [OSave; OPop] t with
                         | Some t' => save_pops k' t' (saved ++ [x])
                         | None => None end
             | None => None end
@@ -100,7 +87,7 @@ Fixpoint mp_all (xs:list term) (t:tst) : option tst :=
   match xs with
   | [] => Some t
   | x::r => match load_of x t with
-            | Some t1 => match do [IMP] t1 with
+            | Some t1 => match do [OMP] t1 with
                          | Some t2 => mp_all r t2
                          | None => None end
             | None => None end
@@ -119,18 +106,18 @@ Definition ax_step (a:assertion) (t:tst) : option tst :=
 
 Definition ctor_step (a:assertion) (t:tst) : option tst :=
   match a_label a with
-  | LAppIsPattern => do [IApp] t
-  | LImpIsPattern => do [IImp] t
+  | LAppIsPattern => do [OApp] t
+  | LImpIsPattern => do [OImp] t
   | _ => match do (emit_pat (axiom_pat d sid a)) t with
          | Some t1 => do_inst a t1
          | None => None end
   end.
 
 Definition mp_step (t:tst) : option tst :=
-  match do [IMP] t with
+  match do [OMP] t with
   | Some t1 =>
       match top t1 with
-      | Some c => match do [ISave; IPop; IPop; IPop] t1 with
+      | Some c => match do [OSave; OPop; OPop; OPop] t1 with
                   | Some t2 => load_of c t2
                   | None => None end
       | None => None end
@@ -139,29 +126,29 @@ Definition mp_step (t:tst) : option tst :=
 
 Definition rule_step (l:label) (t:tst) : option tst :=
   match l with
-  | LProp1 => do [IProp1; IInst [1; 0]] t
-  | LProp2 => do [IProp2; IInst [2; 1; 0]] t
+  | LProp1 => do [OProp1; OInst [1; 0]] t
+  | LProp2 => do [OProp2; OInst [2; 1; 0]] t
   | LMp => mp_step t
   | _ => Some t      (* any other 'proof-rule-*' label: nothing is emitted *)
   end.
 
 Definition label_step (l:label) (t:tst) : option tst :=
-  match find_label d l with
-  | Some (EAx a) =>
+  match find_item d l with
+  | Some (_, IAx a) =>
       match classify a with
       | KNotation | KCtor => ctor_step a t
       | KAxiom => ax_step a t
       | KRule => rule_step l t
       | KIgnored => None
       end
-  | Some (EFloat tc v) => if N.eqb tc tc_pattern then do [IMeta (mvid d v)] t else None
-  | Some (ELemma _) | None => None
+  | Some (_, IFloat _ tc v) => if N.eqb tc tc_pattern then do [OMeta (mvid d v)] t else None
+  | Some (_, IProv _ _ _) | None => None
   end.
 
 Definition tstep (labels:list label) (n:N) (t:tst) : option tst :=
   if N.eqb n 0 then
     match top t with
-    | Some x => match do [ISave] t with
+    | Some x => match do [OSave] t with
                 | Some t' => Some (mkT (mst t') (heap t' ++ [x]) (out t'))
                 | None => None end
     | None => None end
@@ -194,14 +181,14 @@ Fixpoint find_proof (dd:db) (target:label) : option (assertion * list label * li
   | _ :: r => find_proof r target
   end.
 
-Definition gamma_instrs : list instr :=
-  flat_map (fun a => emit_pat (axiom_pat d sid a) ++ [IPublish]) (exported d).
+Definition gamma_instrs : list oinstr :=
+  flat_map (fun a => emit_pat (axiom_pat d sid a) ++ [OPublish]) (exported d).
 
 (** [claims_of]: which lemmas are published as claims.  [translate.main] publishes the claim of the
     target only (after the repair recorded as D16a; before it, every [$p] of the database). *)
 Definition lemma_pat (a:assertion) : pat := img d sid (stmt_term (a_stmt a)).
-Definition claim_instrs (cl:list assertion) : list instr :=
-  flat_map (fun a => emit_pat (lemma_pat a) ++ [IPublish]) (rev cl).
+Definition claim_instrs (cl:list assertion) : list oinstr :=
+  flat_map (fun a => emit_pat (lemma_pat a) ++ [OPublish]) (rev cl).
 
 End Conv.
 
@@ -213,8 +200,8 @@ Definition step_ctor_pats (d:db) (labels:list label) (steps:list N) : list pat :
     if Nat.leb k (length labels) then
       match nth_error labels (k - 1) with
       | Some l =>
-          match find_label d l with
-          | Some (EAx a) =>
+          match find_item d l with
+          | Some (_, IAx a) =>
               match classify a, a_label a with
               | (KNotation | KCtor), (LAppIsPattern | LImpIsPattern) => []
               | (KNotation | KCtor), _ => [axiom_pat d (fun c => c) a]
@@ -233,7 +220,7 @@ Definition small (bs:list N) : bool := forallb (fun b => N.ltb b 256) bs.
 
 (** [all_claims = true] models the pinned [translate.main] (every [$p] is published as a claim);
     [false] the repaired one (only the target). *)
-Definition translate_gen (all_claims:bool) (d:db) (target:label) : option (list N * list N * list N) :=
+Definition translate_raw (all_claims:bool) (d:db) (target:label) : option (list N * list N * list N) :=
   match find_proof d target with
   | None => None
   | Some (a, pl, steps) =>
@@ -256,16 +243,22 @@ Definition translate_gen (all_claims:bool) (d:db) (target:label) : option (list 
                   match top t with
                   | Some (TProved p) =>
                       if pat_eqb p (lemma_pat d sid a) then
-                        match do [IPublish] t with
+                        match do [OPublish] t with
                         | Some t' =>
-                            let g := encode gi in let c := encode ci in let p := encode (out t') in
-                            if small g && small c && small p then Some (g, c, p) else None
+                            Some (encode gi, encode ci, encode (out t'))
                         | None => None end
                       else None
                   | _ => None end
               end
           end
       end
+  end.
+
+(** Python's [bytes([...])] raises for a value above 255 *)
+Definition translate_gen (all_claims:bool) (d:db) (target:label) : option (list N * list N * list N) :=
+  match translate_raw all_claims d target with
+  | Some (g, c, p) => if small g && small c && small p then Some (g, c, p) else None
+  | None => None
   end.
 
 Definition translate := translate_gen false.
